@@ -99,6 +99,8 @@ func VerifC07() {
 		exts = []string{".x"}
 	}
 	route := verifChoose("route", 0, 6)
+	// an encode option on a mkdir call selects the no-op grower for Output; it must not switch validation off
+	withEnc := route != 4 && verifFlag("encodeOption")
 	target := c07Target()
 	c07Seal()
 	w := newVerifWriter()
@@ -120,6 +122,9 @@ func VerifC07() {
 	switch route {
 	case 0, 1, 5, 6:
 		opts := []Option{WithTargetDir(target), WithFileExtensions(exts)}
+		if withEnc {
+			opts = append(opts, WithEncodeJSON())
+		}
 		if route == 1 || route == 6 {
 			opts = append(opts, WithDryRun())
 		}
@@ -137,6 +142,9 @@ func VerifC07() {
 			}
 		}
 		opts := []Option{WithTargetDir(target), WithFileExtensions(exts)}
+		if withEnc {
+			opts = append(opts, WithEncodeYAML())
+		}
 		if route == 3 {
 			opts = append(opts, WithDryRun())
 		}
